@@ -109,9 +109,14 @@ def run_case(desc):
     # budget managers only, every third case: the budget is LOWERED through set_params at a chunk boundary near the middle;
     # from there on the bound must hold with the new budget (counting from the switch), the first part is judged with the old one
     switch_at, b2 = None, None
+    w_before = [None]
     if is_bm and (desc["seed"] >> 19) % 3 == 0 and len(chunks) >= 2:
         switch_at = chunks[len(chunks) // 2][0]
         b2 = max(0.01, round(b * float(rng.choice([0.1, 0.25, 0.5])), 4))
+        # ... and / or the window of the estimate is changed as well (a longer window decays more slowly from then on)
+        sw_variant = (desc["seed"] >> 21) % 3
+        if sw_variant == 2 and "w" in obj.get_params():
+            b2 = b
     granted = np.zeros(n, dtype=int)
     viol = []
     comp = name
@@ -119,11 +124,35 @@ def run_case(desc):
     max_ut = 0.0
     shadow = {"n": 0, "q": 0, "u_t": 0.0}
     viol_kinds = {}
+    # warm start, every fourth case without a switch: labels acquired before the stream are registered through update; they
+    # count against the budget, so the grants of the stream still obey the bound (the shadow model starts from them)
+    warm = switch_at is None and (desc["seed"] >> 25) % 4 == 0
+    if warm:
+        k0 = int(rng.randint(1, 7))
+        X0 = np.round(gen.rng_for("c04warm", desc["seed"]).rand(k0, d), 3).astype(X.dtype)
+        try:
+            if is_bm:
+                streams.update_bm(obj, X0, np.arange(k0), np.ones(k0))
+            else:
+                streams.update_strategy(obj, X0, np.arange(k0), np.ones(k0))
+        except Exception as ex:
+            return {"status": "skip", "skip_reason": "update before the first query raised %s (judged by C10)" % type(ex).__name__}
+        contracts.count("C04.warm-start")
+        acct0 = obj if is_bm else getattr(obj, "budget_manager_", obj)
+        for _ in range(k0):
+            shadow["n"] += 1
+            shadow["q"] += 1
+            if hasattr(acct0, "w"):
+                shadow["u_t"] = shadow["u_t"] * ((acct0.w - 1) / acct0.w) + 1
     for a, c_end in chunks:
         cand = X[a:c_end]
         if switch_at is not None and a == switch_at:
             obj.set_params(budget=b2)
             contracts.count("C04.budget-lowered-by-set_params")
+            w_before[0] = obj.get_params().get("w")
+            if sw_variant >= 1 and "w" in obj.get_params():
+                obj.set_params(w=int(obj.get_params()["w"] * [2, 10][(desc["seed"] >> 23) % 2]))
+                contracts.count("C04.window-changed-by-set_params")
         try:
             steps.begin()
             if is_bm:
@@ -175,7 +204,8 @@ def run_case(desc):
             max_ut = max(max_ut, ut)
             wv = getattr(bm, "w", w)
             # (after the budget was lowered the estimate may still sit above the new guard and only decays)
-            if ut > bm.budget_ * wv + 1 + 1e-9 and not viol and not (switch_at is not None and a >= switch_at):
+            if ut > bm.budget_ * wv + 1 + 1e-9 and not viol and not (switch_at is not None and a >= switch_at) and not warm:
+                # (labels registered by a warm start may put the estimate above the guard as well: it only decays then)
                 viol.append({"component": comp, "kind": "u_t-above-guard", "trigger": "any",
                              "detail": "after instance %d: u_t_=%.4f > budget*w+1=%.4f" % (c_end, ut, bm.budget_ * wv + 1)})
         elif kind != "zl":
@@ -189,7 +219,7 @@ def run_case(desc):
     limit = bound(kind, b_eff, w_eff, ns)
     if switch_at is not None:
         m = switch_at
-        limit = bound(kind, b, w_eff, ns)                     # first part: the budget the manager was built with
+        limit = bound(kind, b, w_before[0] or w_eff, ns)      # first part: the budget and window the manager was built with
         tail = cum[m:] - (cum[m - 1] if m > 0 else 0)
         lim2 = bound(kind, b2, w_eff, np.arange(1, n - m + 1))
         over2 = np.flatnonzero(tail > lim2 + 1e-9)
